@@ -86,6 +86,23 @@ impl OwnedEntry {
     }
 }
 
+/// Registers a directory and all its parents, each one being listed exactly
+/// once in its own parent. The root is the directory with the empty id.
+fn ensure_dir(dirs: &mut HashMap<SharedString, Vec<OwnedEntry>>, id: &SharedString) {
+    if dirs.contains_key(id) {
+        return;
+    }
+    dirs.insert(id.clone(), Vec::new());
+
+    if let Some(parent_id) = DirEntry::Directory(id).parent_id() {
+        let parent_id = SharedString::from(parent_id);
+        ensure_dir(dirs, &parent_id);
+        dirs.entry(parent_id)
+            .or_default()
+            .push(OwnedEntry::Dir(id.clone()));
+    }
+}
+
 /// Register a file of an archive in maps.
 fn register_file(
     file: tar::Entry<'_, impl io::Read>,
@@ -134,22 +151,22 @@ fn register_file(
         let id = id_builder.join();
 
         // Register the file in the maps.
-        let entry = if file.header().entry_type().is_file() {
+        if file.header().entry_type().is_file() {
             let ext = crate::utils::extension_of(&path)?.into();
             let desc = FileDesc(id, ext);
 
             let start = file.raw_file_position();
             let size = file.size();
 
-            files.insert(desc.clone(), (start, size));
-            OwnedEntry::File(desc)
-        } else {
-            if !dirs.contains_key(&id) {
-                dirs.insert(id.clone(), Vec::new());
+            // Make sure the parent directories are known, even if the
+            // archive has no member for them.
+            ensure_dir(dirs, &parent_id);
+            if files.insert(desc.clone(), (start, size)).is_none() {
+                dirs.entry(parent_id).or_default().push(OwnedEntry::File(desc));
             }
-            OwnedEntry::Dir(id)
-        };
-        dirs.entry(parent_id).or_default().push(entry);
+        } else {
+            ensure_dir(dirs, &id);
+        }
 
         Some(())
     })()
@@ -246,6 +263,7 @@ where
         for file in archive.entries_with_seek()? {
             register_file(file?, &mut files, &mut dirs, &mut id_builder)
         }
+        ensure_dir(&mut dirs, &SharedString::from(""));
 
         Ok(Tar {
             reader: archive.into_inner(),
